@@ -362,7 +362,23 @@ impl Compiler {
         varname: &str,
         const_value: isize,
         operator: &Operator,
+        const_first: bool,
     ) -> Result<(), Error> {
+        // The optimized instructions always compute `local OP const`
+        // So if the source says `const OP local`, the operator has to be mirrored (if possible)
+        let operator = match operator {
+            _ if !const_first => operator,
+            Operator::Add | Operator::Multiply | Operator::Eq | Operator::Neq => operator,
+            Operator::Lt => &Operator::Gt,
+            Operator::Lte => &Operator::Gte,
+            Operator::Gt => &Operator::Lt,
+            Operator::Gte => &Operator::Lte,
+            _ => {
+                // This is just for other part of compiler to signal it should emit a normal instruction sequence
+                return Err(Error::ReferenceError("Optimized variant of this operator & operand order is not possible.".to_string()));
+            }
+        };
+
         let idx_constant = self.add_constant(Object::int(const_value));
         let symbol = self.symbols.resolve(varname);
         match symbol {
@@ -515,7 +531,13 @@ impl Compiler {
                 match (&**left, &**right) {
                     (Expr::Identifier(name), Expr::Int { value })
                     | (Expr::Int { value }, Expr::Identifier(name)) => {
-                        let res = self.compile_const_var_infix_expression(name, *value, operator);
+                        let const_first = matches!(&**left, Expr::Int { .. });
+                        let res = self.compile_const_var_infix_expression(
+                            name,
+                            *value,
+                            operator,
+                            const_first,
+                        );
                         if res.is_ok() {
                             return res;
                         }
